@@ -4,6 +4,7 @@
 (* several probability bins hold at least five cases and so that probabilities    *)
 (* 0, 1/2 and 1 occur; reliability, discrimination, ROC, marginal, PIT histogram. *)
 EXTENDS Diagrams, KnownFindings, Json, SequencesExt
+CONSTANT Only            \* "all", or the one diagram to enumerate
 VARIABLES g, d, phase
 vars == <<g, d, phase>>
 J(x) == IF IsNaN(x) THEN "nan" ELSE IF IsInf(x) THEN "inf" ELSE IF x[2] = 1 THEN x[1] ELSE x
@@ -37,6 +38,9 @@ Variants == {[diagram |-> "reliability", bt |-> b, argv |-> <<"-m", "reliability
        \cup {[diagram |-> "invreliability", bt |-> "none", argv |-> <<"-m", "invreliability", "-q", "0.5", "-r", "0,1,2,3,4">>]}
        \cup {[diagram |-> "spreadskill", bt |-> "none", argv |-> <<"-m", "spreadskill", "-r", "1,2,3,4,5">>]}
        \cup {[diagram |-> "meteo", bt |-> "none", argv |-> <<"-m", "meteo">>]}
+       \* the obs/fcst diagram with quantile lines: per location (one case each) the observation, every input's forecast and, for each
+       \* requested level, every input's quantile -- each series under the name of the input it belongs to
+       \cup {[diagram |-> "obsfcst", bt |-> "none", argv |-> <<"-m", "obsfcst", "-x", "location", "-q", q>>] : q \in {"0.1,0.9", "0.5", "0.9,0.5,0.1"}}
 S(label, x, y) == [label |-> label, x |-> x, y |-> y]
 SeriesFor(x, v, closedLast) ==
   CASE v.diagram = "reliability" -> [i \in 1..2 |-> LET r == ReliabilityXY(PE(x, i, v.bt, 1), 5, closedLast) IN S(InputLabel(i), r.x, r.y)]
@@ -52,6 +56,14 @@ SeriesFor(x, v, closedLast) ==
     [] v.diagram = "igncontrib" -> [i \in 1..2 |-> LET r == IgnContribXY(PE(x, i, v.bt, 1)) IN S(InputLabel(i), r.x, r.y)]
     [] v.diagram = "invreliability" -> [i \in 1..2 |-> LET r == InvReliabilityXY(QCases(x, i), [k \in 1..5 |-> R(k - 1)]) IN S(InputLabel(i), r.x, r.y)]
     [] v.diagram = "spreadskill" -> [i \in 1..2 |-> LET r == SpreadSkillXY(QCases(x, i), [k \in 1..5 |-> R(k)]) IN S(InputLabel(i), r.x, r.y)]
+    [] v.diagram = "obsfcst" ->
+         LET xs == [k \in 1..N12 |-> Q(R(k))]
+             vis(s) == [k \in 1..N12 |-> IF IsNaN(ObsOf(x)[k]) \/ IsNaN(s[k]) THEN NaNE ELSE Q(s[k])]
+             levels == IF v.argv[6] = "0.1,0.9" THEN <<1, 3>> ELSE IF v.argv[6] = "0.5" THEN <<2>> ELSE <<3, 2, 1>>
+             qname(l) == IF l = 1 THEN " 10%" ELSE IF l = 2 THEN " 50%" ELSE " 90%"
+             qof(i, l) == IF l = 1 THEN QLow(x, i) ELSE IF l = 2 THEN QMid(x, i) ELSE QHigh(x, i)
+         IN  <<S("obs", xs, [k \in 1..N12 |-> IF IsNaN(ObsOf(x)[k]) \/ IsNaN(FcstOf(x, 1)[k]) THEN NaNE ELSE Q(ObsOf(x)[k])])>> \o [i \in 1..2 |-> S(InputLabel(i), xs, vis(FcstOf(x, i)))]
+             \o [n \in 1..(2 * Len(levels)) |-> LET l == levels[((n - 1) \div 2) + 1]  i == ((n - 1) % 2) + 1 IN S(<<"#", i, qname(l)>>, xs, vis(qof(i, l)))]
     \* meteo takes a single input (the first): at the only lead time, the means over the locations of the observations, the forecasts
     \* (each over its own valid cases) and the three quantiles
     [] v.diagram = "meteo" -> LET day == <<Q(Frac(1325376000, 86400))>>  valid(s) == SelectSeq(s, LAMBDA w : ~IsNaN(w)) IN
@@ -64,7 +76,7 @@ Emit == PrintT(ToJson([diagram |-> d.diagram, argv |-> d.argv, files |-> IF d.di
                        series |-> SeriesFor(g, d, TRUE),
                        \* F-p1-bin: what the code draws when a probability of exactly 1 falls in no bin (last bin half-open)
                        impl |-> SeriesFor(g, d, FALSE)]))
-Init == g \in Gens /\ d \in Variants /\ phase = "case"
+Init == g \in Gens /\ d \in {v \in Variants : Only = "all" \/ v.diagram = Only} /\ phase = "case"
 Evaluate == phase = "case" /\ phase' = "emitted" /\ UNCHANGED <<g, d>> /\ Emit
 Next == Evaluate
 Spec == Init /\ [][Next]_vars
